@@ -214,7 +214,13 @@ func c09Gen(tier string, emit func(c09Case)) {
 	for p := range c09Profiles() {
 		for a := 0; a < nd; a++ {
 			for b := 0; b < nd; b++ {
-				emit(c09Case{Profile: p, Prefix: []int{a, b}, Depth: depth})
+				if depth <= 3 {
+					emit(c09Case{Profile: p, Prefix: []int{a, b}, Depth: depth})
+					continue
+				}
+				for d := 0; d < nd; d++ {
+					emit(c09Case{Profile: p, Prefix: []int{a, b, d}, Depth: depth}) // 9 histories of length 4 per case
+				}
 			}
 		}
 	}
@@ -358,17 +364,21 @@ func c09Run(c *Ctx, cs c09Case) {
 		below += pow
 	}
 	own := below + 1 // the prefix node itself
-	if cs.Prefix[1] == 0 {
-		own++ // the depth-1 node is owned by the case whose second document is the first of the alphabet
-	}
-	if cs.Prefix[0] == 0 && cs.Prefix[1] == 0 {
-		own++ // the initial state
+	tr := below + 1  // and the edge into it
+	// an ancestor at depth l (and the edge into it) is owned by the case whose prefix continues with first letters only
+	for l := len(cs.Prefix) - 1; l >= 0; l-- {
+		zeros := true
+		for _, x := range cs.Prefix[l:] {
+			zeros = zeros && x == 0
+		}
+		if zeros {
+			own++
+			if l >= 1 {
+				tr++
+			}
+		}
 	}
 	c.Count("states", own)
-	tr := below + 1
-	if cs.Prefix[1] == 0 {
-		tr++
-	}
 	c.Count("transitions", tr)
 	c.Count("traces_validated_against_impl", tr)
 	c.Nontrivial(fmt.Sprintf("%d/%v", cs.Profile, cs.Prefix))
